@@ -497,7 +497,7 @@ func ruleREF3(p *Program) *RuleResult {
 			for _, ver := range vers {
 				for bi, base := range bases {
 					// the full product for the first and last types, a diagonal for the rest
-					if ti != 0 && ti != len(resNames)-1 && (ii+bi+ti)%3 != 0 {
+					if !thoroughTier && ti != 0 && ti != len(resNames)-1 && (ii+bi+ti)%3 != 0 {
 						continue
 					}
 					n++
@@ -678,7 +678,7 @@ func ruleREF4(p *Program) *RuleResult {
 	n := 0
 	for ti, t := range resNames {
 		for ii, id := range []string{"1", "a-b.C9", strings.Repeat("x", 64)} {
-			if ti != 0 && (ti+ii)%3 != 0 {
+			if !thoroughTier && ti != 0 && (ti+ii)%3 != 0 {
 				continue
 			}
 			for _, ver := range []string{"", "v2.0"} {
